@@ -759,20 +759,22 @@ func (p *Project) WithServicesTransform(fn func(name string, s ServiceConfig) (S
 	resultCh := make(chan result, expect)
 	newProject := p.deepCopy()
 
+	// transformed services are collected here and installed once all goroutines are done
+	transformed := Services{}
+	complete := false
 	eg, ctx := errgroup.WithContext(context.Background())
 	eg.Go(func() error {
-		s := Services{}
 		for expect > 0 {
 			select {
 			case <-ctx.Done():
 				// interrupted as some goroutine returned an error
 				return nil
 			case r := <-resultCh:
-				s[r.name] = r.service
+				transformed[r.name] = r.service
 				expect--
 			}
 		}
-		newProject.Services = s
+		complete = true
 		return nil
 	})
 	for n, s := range newProject.Services {
@@ -790,7 +792,11 @@ func (p *Project) WithServicesTransform(fn func(name string, s ServiceConfig) (S
 			return nil
 		})
 	}
-	return newProject, eg.Wait()
+	err := eg.Wait()
+	if complete {
+		newProject.Services = transformed
+	}
+	return newProject, err
 }
 
 // CheckContainerNameUnicity validate project doesn't have services declaring the same container_name
